@@ -1,17 +1,503 @@
 package gov
 
 import (
+	"fmt"
 	"go/token"
+	"go/types"
+	"sort"
+	"strings"
 
 	"golang.org/x/tools/go/ssa"
 )
 
-// Monitor support (lock invariants). Filled in below; the hooks are called by the executor.
+// Monitors: state that is only ever touched inside function literals handed to one locked function
+// ("via", e.g. (*Connection).updateInFlight). Each literal is an *action*. An action unit is the via-function
+// executed with its function parameter bound to that literal: it assumes the monitor invariant I at entry and
+// must re-establish I and satisfy the two-state transition invariant T at exit. Because actions on one mutex are
+// serialised and are the only code touching the protected state (discipline check), I holds whenever the lock is
+// free and every observable change is a composition of T-steps, for every schedule.
 
-func (r *FnRun) checkMonitorAccess(fr *Frame, l *Loc, pos token.Pos, write bool) {}
-
-func (r *FnRun) monitorCall(fr *Frame, fn *ssa.Function, cc *ssa.CallCommon, args []Val, pos token.Pos) *Val {
+// monitorFor returns the monitor whose via-function is fn.
+func (e *Engine) monitorFor(fn *ssa.Function) *Monitor {
+	if fn == nil {
+		return nil
+	}
+	for _, m := range e.DB.Monitors {
+		if m.ViaKey == fn.String() {
+			return m
+		}
+	}
 	return nil
 }
 
+// ActionLiterals finds, in source order, the function literals passed to the monitor's via-function.
+func (e *Engine) ActionLiterals(m *Monitor) []*ssa.Function {
+	via := e.FnByName[m.ViaKey]
+	if via == nil {
+		return nil
+	}
+	var out []*ssa.Function
+	seen := map[*ssa.Function]bool{}
+	var keys []string
+	for k := range e.FnByName {
+		keys = append(keys, k)
+	}
+	sort.Strings(keys)
+	for _, k := range keys {
+		fn := e.FnByName[k]
+		if pkgOf(fn) == nil || pkgOf(fn).Path() != m.PkgPath {
+			continue
+		}
+		for _, b := range fn.Blocks {
+			for _, in := range b.Instrs {
+				call, ok := in.(ssa.CallInstruction)
+				if !ok || call.Common().StaticCallee() != via {
+					continue
+				}
+				for _, a := range call.Common().Args {
+					var lit *ssa.Function
+					if mc, ok := a.(*ssa.MakeClosure); ok {
+						lit = mc.Fn.(*ssa.Function)
+					} else if f, ok := a.(*ssa.Function); ok && f.Parent() != nil {
+						lit = f // a literal that captures nothing
+					}
+					if lit != nil && !seen[lit] {
+						seen[lit] = true
+						out = append(out, lit)
+					}
+				}
+			}
+		}
+	}
+	return out
+}
+
+// monitorEnv binds the monitor's state variable (and the receiver name) for evaluating I and T in the via-function.
+func (r *FnRun) monitorVars(fr *Frame, m *Monitor) map[string]EV {
+	via := fr.Fn
+	vars := map[string]EV{}
+	recv := via.Params[0]
+	rv := fr.names[recv.Name()]
+	vars[recv.Name()] = valToEV(rv, recv.Type())
+	// s := &recv.<path>
+	ctx := &EvalCtx{fr: fr, st: fr.st, vars: vars, pkgPath: m.PkgPath}
+	loc := r.stateLoc(ctx, m)
+	vars[m.StateVar] = EV{Loc: loc, Ty: types.NewPointer(pathType(loc))}
+	return vars
+}
+
+// stateLoc evaluates the address expression of the protected state (a field path below the receiver).
+func (r *FnRun) stateLoc(ctx *EvalCtx, m *Monitor) *Loc {
+	var path []string
+	e := m.StateExpr
+	for {
+		sel, ok := e.(ESel)
+		if !ok {
+			break
+		}
+		path = append([]string{sel.Sel}, path...)
+		e = sel.X
+	}
+	base := ctx.Eval(e)
+	p, ok := types.Unalias(base.Ty).Underlying().(*types.Pointer)
+	if !ok {
+		ctx.fail("monitor state: %s is not a pointer", ExprString(e))
+	}
+	l := &Loc{Kind: LObj, Ref: ctx.term(base), Type: p.Elem()}
+	t := p.Elem()
+	for _, f := range path {
+		st := types.Unalias(t).Underlying().(*types.Struct)
+		found := false
+		for i := 0; i < st.NumFields(); i++ {
+			if st.Field(i).Name() == f {
+				l.Path = append(l.Path, i)
+				t = st.Field(i).Type()
+				found = true
+			}
+		}
+		if !found {
+			ctx.fail("monitor state: no field %s", f)
+		}
+	}
+	return l
+}
+
+// VerifyAction generates the obligations of one action of a monitor.
+func (e *Engine) VerifyAction(m *Monitor, lit *ssa.Function) (r *FnRun) {
+	via := e.FnByName[m.ViaKey]
+	c := e.ContractFor(lit) // optional: requires/ensures over the captured variables
+	shell := &Contract{Key: lit.String(), Name: lit.Name(), PkgPath: m.PkgPath, File: m.File, Line: m.Line, Loops: map[int][]Clause{}, ModAll: true}
+	if c != nil {
+		cp := *c
+		cp.ModAll = true
+		shell = &cp
+	}
+	r = e.NewRun(via, shell)
+	r.action = lit
+	r.monitor = m
+	defer func() {
+		if x := recover(); x != nil {
+			if u, ok := x.(unsupportedErr); ok {
+				r.Unsupported = append(r.Unsupported, u.msg)
+				return
+			}
+			panic(x)
+		}
+	}()
+	r.Sc.Comment("action " + lit.String() + " of monitor " + m.Name)
+	st := &State{regs: map[*ssa.Alloc]Term{}, heap: map[string]Term{}, ghost: map[string]Term{}, held: map[string]bool{}, vol: map[string]bool{}}
+	st.top = r.Sc.Declare("top0", SInt)
+	r.Sc.Assume(Le(IntLit(0), st.top))
+	fr := &Frame{R: r, Fn: via, C: shell, env: map[ssa.Value]Val{}, names: map[string]Val{}, nameTys: map[string]types.Type{}, top: true, loopsUsed: map[int]bool{}}
+	r.topFrame = fr
+	fr.st = st
+	fr.cur = True
+	// receiver
+	recv := via.Params[0]
+	rt := r.Sc.Declare("p."+sanitize(recv.Name()), SInt)
+	fr.typeFacts(rt, recv.Type())
+	r.Sc.Assume(Lt(IntLit(0), rt))
+	fr.env[recv] = TV(rt)
+	fr.names[recv.Name()] = TV(rt)
+	fr.nameTys[recv.Name()] = recv.Type()
+	// the function parameter is this literal, closed over unknown cells
+	clo := fr.alloc("action")
+	ci := &closureInfo{fn: lit}
+	capVars := map[string]EV{}
+	for _, fv := range lit.FreeVars {
+		cell := r.Sc.Declare("fv."+sanitize(fv.Name()), SInt)
+		fr.typeFacts(cell, fv.Type())
+		r.Sc.Assume(Lt(IntLit(0), cell))
+		ci.bindings = append(ci.bindings, TV(cell))
+		el := fv.Type().(*types.Pointer).Elem()
+		capVars[fv.Name()] = EV{Cell: fr.locOf(TV(cell), el), Ty: el}
+		capVars["&"+fv.Name()] = EV{T: cell, Ty: fv.Type()}
+	}
+	for i, a := range lit.FreeVars {
+		for _, b := range lit.FreeVars[i+1:] {
+			ea, eb := a.Type().(*types.Pointer).Elem(), b.Type().(*types.Pointer).Elem()
+			if boxComp(ea) == boxComp(eb) {
+				r.Sc.Assume(Not(Eq(T("fv."+sanitize(a.Name()), SInt), T("fv."+sanitize(b.Name()), SInt))))
+			}
+		}
+	}
+	r.closures[clo.S] = ci
+	fr.env[via.Params[1]] = TV(clo)
+	fr.names[via.Params[1].Name()] = TV(clo)
+	fr.nameTys[via.Params[1].Name()] = via.Params[1].Type()
+	r.actionVars = capVars
+	fr.entry = st.Clone()
+	r.preRegisterTracksIn(fr, lit)
+	r.assertAxioms(fr)
+	mv := r.monitorVars(fr, m)
+	for k, v := range capVars {
+		mv[k] = v
+	}
+	// a captured receiver of the same type is the via-function's receiver
+	for _, fv := range lit.FreeVars {
+		el := fv.Type().(*types.Pointer).Elem()
+		if types.Identical(el, recv.Type()) {
+			l := fr.locOf(TV(T("fv."+sanitize(fv.Name()), SInt)), el)
+			r.Sc.Assume(Eq(fr.load(l), rt))
+		}
+	}
+	r.monVars = mv
+	ctx := &EvalCtx{fr: fr, st: fr.st, old: fr.entry, vars: mv, pkgPath: m.PkgPath, contract: shell}
+	for _, gi := range e.DB.GlobalInvs[m.PkgPath] {
+		fr.assume(ctx.Bool(gi.E))
+	}
+	for _, inv := range m.Invariants {
+		fr.assume(ctx.Bool(inv.E))
+	}
+	for _, as := range m.Assumes {
+		fr.assume(ctx.Bool(as.E))
+		r.Trusted["monitor assumption: "+as.Src] = true
+	}
+	for _, rq := range shell.Requires {
+		fr.assume(ctx.Bool(rq.E))
+	}
+	for _, as := range shell.Assumes {
+		fr.assume(ctx.Bool(as.E))
+		r.Trusted["assumption of "+lit.Name()+": "+as.Src] = true
+	}
+	r.addCover("invariant-and-requires-satisfiable", True)
+	fr.entry = fr.st.Clone()
+	fr.st.held[m.Name] = true
+	retGuard, out, _ := fr.runBody(fr.st, True)
+	if retGuard.S == "false" {
+		out = fr.entry
+	}
+	fr.st = out
+	fr.cur = retGuard
+	post := &EvalCtx{fr: fr, st: out, old: fr.entry, vars: mv, pkgPath: m.PkgPath, contract: shell}
+	for _, inv := range m.Invariants {
+		cl := inv
+		r.addOblNamed(r.fnShort(lit)+"#mon-inv:"+inv.Label, "mon-inv", Implies(retGuard, post.Bool(inv.E)), inv.Src, &cl, lit.Pos())
+	}
+	for _, tr := range m.Trans {
+		cl := tr
+		r.addOblNamed(r.fnShort(lit)+"#mon-trans:"+tr.Label, "mon-trans", Implies(retGuard, post.Bool(tr.E)), tr.Src, &cl, lit.Pos())
+	}
+	for _, en := range shell.Ensures {
+		cl := en
+		r.addOblNamed(r.fnShort(lit)+"#ensures:"+en.Label, "ensures", Implies(retGuard, post.Bool(en.E)), en.Src, &cl, lit.Pos())
+	}
+	r.addCover("returns-reachable", retGuard)
+	return r
+}
+
+func (r *FnRun) addOblNamed(name, kind string, goal Term, src string, cl *Clause, where token.Pos) {
+	r.nameCount[name]++
+	if n := r.nameCount[name]; n > 1 {
+		name = fmt.Sprintf("%s~%d", name, n)
+	}
+	o := &Obligation{Name: name, Kind: kind, Pos: r.Sc.Pos(), Goal: goal, Src: src, Where: r.pos(where), Fn: r.fnShortSafe(), Script: r.Sc}
+	if cl != nil {
+		o.File, o.Line = cl.File, cl.Line
+	}
+	r.Obls = append(r.Obls, o)
+}
+
+// protectedComps lists the heap components a monitor protects.
+func (r *FnRun) protectedComps(fr *Frame, m *Monitor) []string {
+	var out []string
+	for _, p := range m.Protects {
+		cs, ok := fr.targetComps(p, map[string]types.Type{}, m.PkgPath)
+		if !ok {
+			r.unsupported("monitor %s: cannot resolve protects target %s", m.Name, ExprString(p))
+		}
+		out = append(out, cs...)
+	}
+	return out
+}
+
+// ---------- hooks called by the executor ----------
+
+func (r *FnRun) checkMonitorAccess(fr *Frame, l *Loc, pos token.Pos, write bool) {}
+
+// monitorCall: a call of a via-function with a function literal, inside some other unit. The caller does not hold
+// the lock before or after, so the protected state is arbitrary around the call; the literal's contract (over the
+// captured variables) is what the caller may use.
+func (r *FnRun) monitorCall(fr *Frame, fn *ssa.Function, cc *ssa.CallCommon, args []Val, pos token.Pos) *Val {
+	m := r.Eng.monitorFor(fn)
+	if m == nil || r.action != nil && fn == r.Fn {
+		return nil
+	}
+	var lit *ssa.Function
+	var bindings []Val
+	for _, a := range cc.Args {
+		if mc, ok := a.(*ssa.MakeClosure); ok {
+			lit = mc.Fn.(*ssa.Function)
+			for _, b := range mc.Bindings {
+				bindings = append(bindings, fr.val(b))
+			}
+		} else if f, ok := a.(*ssa.Function); ok && f.Parent() != nil {
+			lit = f
+		}
+	}
+	if lit == nil {
+		r.note("call of %s with a function value that is not a literal: heap havocked", m.Via)
+		v := fr.havocCall(cc, args, true, pos)
+		return &v
+	}
+	c := r.Eng.ContractFor(lit)
+	// captured variables: current values
+	vars := map[string]EV{}
+	for i, fv := range lit.FreeVars {
+		el := fv.Type().(*types.Pointer).Elem()
+		vars[fv.Name()] = EV{Cell: fr.locOf(bindings[i], el), Ty: el}
+		vars["&"+fv.Name()] = valToEV(bindings[i], fv.Type())
+	}
+	// receiver and state variable
+	recvName := fn.Params[0].Name()
+	vars[recvName] = valToEV(args[0], fn.Params[0].Type())
+	pre := fr.st.Clone()
+	if c != nil {
+		c.Used = true
+		r.UsedContracts[c.Key] = true
+		ctx := &EvalCtx{fr: fr, st: fr.st, vars: vars, pkgPath: m.PkgPath, contract: c}
+		ctx.vars[m.StateVar] = EV{Loc: r.stateLoc(ctx, m), Ty: nil}
+		ctx.vars[m.StateVar] = EV{Loc: ctx.vars[m.StateVar].Loc, Ty: types.NewPointer(pathType(ctx.vars[m.StateVar].Loc))}
+		for _, rq := range c.Requires {
+			if exprMentions(rq.E, m.StateVar) {
+				// a precondition on the protected state cannot be established by a caller that does not hold the lock
+				r.addObl("requires@"+lit.Name(), rq.Label, False, rq.Src+"  (mentions the protected state: not establishable outside the lock)", &rq, pos)
+				continue
+			}
+			r.addObl("requires@"+lit.Name(), rq.Label, Implies(fr.cur, ctx.Bool(rq.E)), rq.Src, &rq, pos)
+		}
+	}
+	// effects: other threads and this action may change the protected state; the action may write captured variables
+	fr.bumpTop()
+	for _, comp := range r.protectedComps(fr, m) {
+		r.Heap.Havoc(fr.st, comp)
+	}
+	for i, fv := range lit.FreeVars {
+		if closureWrites(lit, fv) {
+			el := fv.Type().(*types.Pointer).Elem()
+			fr.store(fr.locOf(bindings[i], el), fr.freshTyped("cap."+fv.Name(), el))
+		}
+	}
+	if c != nil {
+		if c.ModAll && false {
+			r.Heap.HavocAll(fr.st)
+		}
+		pctx := &EvalCtx{fr: fr, st: pre, vars: vars, pkgPath: m.PkgPath, contract: c}
+		for _, mod := range c.Modifies {
+			fr.havocTarget(pctx, mod)
+		}
+		post := &EvalCtx{fr: fr, st: fr.st, old: pre, vars: vars, pkgPath: m.PkgPath, contract: c}
+		sl := r.stateLoc(post, m)
+		post.vars[m.StateVar] = EV{Loc: sl, Ty: types.NewPointer(pathType(sl))}
+		for _, en := range c.Ensures {
+			if t, ok := post.tryBool(en.E); ok {
+				fr.assume(t)
+			}
+		}
+	} else {
+		r.note("action literal %s has no contract of its own: its effect on captured variables is unknown", r.fnShort(lit))
+	}
+	v := Val{Tuple: []Val{}}
+	return &v
+}
+
 func (r *FnRun) checkMonitorsAtExit(fr *Frame, retGuard Term) {}
+
+// DisciplineObligations: the protected state is reached only through the via-function (syntactic check over the
+// monitor's package): its address is taken only there, in constructors of the enclosing object, and in helpers that
+// receive it as a parameter.
+func (e *Engine) DisciplineUnit(m *Monitor) *FnRun {
+	via := e.FnByName[m.ViaKey]
+	r := e.NewRun(via, nil)
+	r.lemmaRun = true
+	if via == nil {
+		r.Unsupported = append(r.Unsupported, "monitor via-function not found: "+m.ViaKey)
+		return r
+	}
+	// the protected root field
+	var fieldName string
+	var ownerType types.Type
+	if sel, ok := m.StateExpr.(ESel); ok {
+		fieldName = sel.Sel
+		ownerType = via.Params[0].Type().Underlying().(*types.Pointer).Elem()
+	}
+	var bad []string
+	var keys []string
+	for k := range e.FnByName {
+		keys = append(keys, k)
+	}
+	sort.Strings(keys)
+	for _, k := range keys {
+		fn := e.FnByName[k]
+		if pkgOf(fn) == nil || !strings.HasPrefix(pkgOf(fn).Path(), ModulePath) || fn == via {
+			continue
+		}
+		for _, b := range fn.Blocks {
+			for _, in := range b.Instrs {
+				fa, ok := in.(*ssa.FieldAddr)
+				if !ok {
+					continue
+				}
+				pt, ok := fa.X.Type().Underlying().(*types.Pointer)
+				if !ok || !types.Identical(pt.Elem(), ownerType) {
+					continue
+				}
+				st := types.Unalias(pt.Elem()).Underlying().(*types.Struct)
+				if st.Field(fa.Field).Name() != fieldName {
+					continue
+				}
+				// allowed: initialisation of a freshly allocated owner (composite literal in a constructor)
+				if al, ok := fa.X.(*ssa.Alloc); ok && al.Heap {
+					continue
+				}
+				bad = append(bad, fmt.Sprintf("%s touches %s.%s outside %s at %s", r.fnShort(fn), typeKey(ownerType), fieldName, m.Via, r.pos(fa.Pos())))
+			}
+		}
+	}
+	goal := True
+	src := fmt.Sprintf("%s.%s is accessed only inside %s (lock discipline)", typeKey(ownerType), fieldName, m.Via)
+	if len(bad) > 0 {
+		goal = False
+		src += ": " + strings.Join(bad, "; ")
+	}
+	r.Sc.Declare("top0", SInt)
+	r.addOblNamed(shortName(m.Via)+"#discipline:"+m.Name, "discipline", goal, src, nil, via.Pos())
+	// close-only channels
+	for _, co := range m.CloseOnly {
+		parts := strings.Split(co, ".")
+		var bad2 []string
+		for _, k := range keys {
+			fn := e.FnByName[k]
+			if pkgOf(fn) == nil || pkgOf(fn).Path() != m.PkgPath {
+				continue
+			}
+			for _, b := range fn.Blocks {
+				for _, in := range b.Instrs {
+					var chans []ssa.Value
+					switch in := in.(type) {
+					case *ssa.Send:
+						chans = append(chans, in.Chan)
+					case *ssa.Select:
+						for _, s := range in.States {
+							if s.Dir == types.SendOnly {
+								chans = append(chans, s.Chan)
+							}
+						}
+					}
+					for _, ch := range chans {
+						if strings.HasSuffix(valueSourceName(ch), "."+parts[len(parts)-1]) || valueSourceName(ch) == parts[len(parts)-1] {
+							bad2 = append(bad2, fmt.Sprintf("%s sends on %s", r.fnShort(fn), co))
+						}
+					}
+				}
+			}
+		}
+		g := True
+		s2 := "channel " + co + " is never sent on (only closed)"
+		if len(bad2) > 0 {
+			g = False
+			s2 += ": " + strings.Join(bad2, "; ")
+		}
+		r.addOblNamed(shortName(m.Via)+"#closeonly:"+co, "discipline", g, s2, nil, via.Pos())
+	}
+	return r
+}
+
+// havocAllHeap forgets the heap, except what a held monitor protects: while this unit holds the lock no other code
+// can change the protected state (lock discipline, non-reentrant mutex).
+func (fr *Frame) havocAllHeap() {
+	r := fr.R
+	var keep map[string]Term
+	if r.monitor != nil && fr.st.held[r.monitor.Name] {
+		keep = map[string]Term{}
+		for _, comp := range r.protectedComps(fr, r.monitor) {
+			if sort, ok := r.Heap.sorts[comp]; ok {
+				keep[comp] = r.Heap.Get(fr.st, comp, sort)
+			}
+		}
+		r.Trusted["while "+r.monitor.Name+" is held, code reached through calls (closer.Close, callbacks) does not modify the protected state (it cannot take the non-reentrant lock)"] = true
+	}
+	r.Heap.HavocAll(fr.st)
+	for k, v := range keep {
+		fr.st.heap[k] = v
+	}
+}
+
+// isCloseOnly: the channel value is read from a field declared close-only by a monitor of this package.
+func (fr *Frame) isCloseOnly(v ssa.Value) bool {
+	name := valueSourceName(v)
+	if name == "" {
+		return false
+	}
+	for _, m := range fr.R.Eng.DB.Monitors {
+		for _, co := range m.CloseOnly {
+			parts := strings.Split(co, ".")
+			f := parts[len(parts)-1]
+			if name == f || strings.HasSuffix(name, "."+f) {
+				fr.R.Trusted["close-only channel "+co+": a receive succeeds only after close (checked: never sent on)"] = true
+				return true
+			}
+		}
+	}
+	return false
+}
